@@ -76,9 +76,9 @@ fn viol(class: &str, detail: String, printed: Option<&str>) -> Violation {
     }
 }
 
-/// When set, what a run observes after a re-entrant operation counts as a violation; by default
-/// such runs are advisory (see `Outcome::advisory`).
-pub static STRICT_REENTRANCY: std::sync::atomic::AtomicBool = std::sync::atomic::AtomicBool::new(false);
+/// When set, advisory observations (re-entrancy, sink-protocol, robustness on corrupted input)
+/// count as violations; by default they are notes (see the end of `execute_rec`).
+pub static STRICT_ADVISORY: std::sync::atomic::AtomicBool = std::sync::atomic::AtomicBool::new(false);
 
 pub struct Outcome {
     /// every decision actually taken: replaying it reproduces the run without a PRNG
@@ -828,11 +828,13 @@ pub fn execute(plan: &Plan, search: Option<Search>, stats: &mut Stats) -> Outcom
     match &plan.value {
         ValueSpec::Versions { .. } => {
             let rec = build_rec_versions(&plan.value, stats);
-            execute_rec::<Version>(plan, rec, search, stats)
+            let fresh = if plan.knobs.fresh_instance { build_rec_versions(&plan.value, &mut Stats::default()) } else { None };
+            execute_rec::<Version>(plan, rec, fresh, search, stats)
         }
         ValueSpec::Ranges { .. } => {
             let rec = build_rec_ranges(&plan.value, stats);
-            execute_rec::<Range>(plan, rec, search, stats)
+            let fresh = if plan.knobs.fresh_instance { build_rec_ranges(&plan.value, &mut Stats::default()) } else { None };
+            execute_rec::<Range>(plan, rec, fresh, search, stats)
         }
     }
 }
@@ -840,6 +842,7 @@ pub fn execute(plan: &Plan, search: Option<Search>, stats: &mut Stats) -> Outcom
 fn execute_rec<T: Item>(
     plan: &Plan,
     rec: Option<Rec<T>>,
+    fresh: Option<Rec<T>>,
     search: Option<Search>,
     stats: &mut Stats,
 ) -> Outcome
@@ -975,6 +978,17 @@ where
         }
     };
 
+    // A second instance of the same value that has never been printed or serialised: state a
+    // value may carry (a cached rendering, say) is then first touched by the faulty phases below.
+    // The reference texts above come from the first instance.
+    let wrec: &Rec<T> = match &fresh {
+        Some(f) if f.items.len() == rec.items.len() => {
+            stats.inc(C::fresh_instance_runs);
+            f
+        }
+        _ => &rec,
+    };
+
     // ---- P: printing into a failing formatter sink -----------------------------------------------
     let mut fmt_faults = 0usize;
     let mut reentered = 0usize;
@@ -1000,7 +1014,7 @@ where
             }
         }
         let res = guarded(|| {
-            for b in rec.items() {
+            for b in wrec.items() {
                 let x = &b.item;
                 match shape {
                     FmtShape::Plain => write!(sink, "{}", x)?,
@@ -1154,7 +1168,7 @@ where
     let wout: WOut = {
         let mut sw = SimWriter { disk: &mut disk, ctl: &mut wctl, stats: &mut *stats, nested: Some(&nested_ser) };
         let pretty = plan.knobs.pretty;
-        let item_refs: Vec<&T> = rec.items().iter().map(|b| &b.item).collect();
+        let item_refs: Vec<&T> = wrec.items().iter().map(|b| &b.item).collect();
         let recser = Wire(shape, &item_refs);
         fn drive<W: io::Write, S: Serialize>(w: W, j: &[u8], pretty: bool, value: &S) -> (WOut, W) {
             let mut shim = Shim::new(w, j);
@@ -1313,6 +1327,25 @@ where
     counts.write_lens = std::mem::take(&mut wctl.lens);
     counts.flush_calls = wctl.flush_calls;
     counts.record_len = j.len();
+
+    // after the faulty sinks: the instance that went through them still prints its own text
+    if fresh.is_some() {
+        for (b, want) in wrec.items().iter().zip(&printed) {
+            match guarded(|| b.item.to_string()) {
+                Ok(s) if s == *want => {}
+                Ok(s) => viols.push(viol(
+                    "S1-print-after-faulty-sink-differs",
+                    format!("after its first print went to a failing sink the value prints {:?}; a fresh instance prints {:?}", s, want),
+                    Some(want),
+                )),
+                Err(p) => viols.push(viol(
+                    "S1-print-after-faulty-sink-differs",
+                    format!("after its first print went to a failing sink printing the value panics: {}", p),
+                    Some(want),
+                )),
+            }
+        }
+    }
 
     // ---- storage: what survives, bit flips at rest -----------------------------------------------
     let mut data = disk.bytes.clone();
@@ -1673,20 +1706,50 @@ where
         "reads": effective.reads,
         "faults_delivered": { "fmt": fmt_faults, "write": write_faults, "read": read_faults_total, "reentrant_operations": reentered },
     });
-    // the in-memory baseline ran before any stub was called, so it cannot have been influenced by
-    // a re-entry; everything observed in the phases after it is advisory in such a run
-    let (violations, advisory) = if reentered > 0 && !STRICT_REENTRANCY.load(std::sync::atomic::Ordering::Relaxed) {
-        let (real, adv): (Vec<Violation>, Vec<Violation>) = viols.into_iter().partition(|v| v.class.starts_with("G0-"));
-        for v in &adv {
-            stats.inc(C::advisory_reentrancy_observations);
-            if stats.advisory_samples.len() < 8 && !stats.advisory_samples.iter().any(|x| x.0 == v.class) {
-                stats.advisory_samples.push((v.class.clone(), v.detail.clone()));
+    // Advisory observations: things worth telling a maintainer that C12 / C13 do not state, so
+    // they never change the verdict (DESIGN 7.8).
+    //  * REENTRANCY: anything observed after the in-memory baseline in a run in which a stub
+    //    re-entered the crate.
+    //  * PROTOCOL: a printing or serialising call that reported the sink's failure but did not
+    //    stop at it (writes after the error, hence bytes that are no prefix of the record, and
+    //    serde_json's own debug assertion about exactly that).  The caller was told the call
+    //    failed; an *acknowledged* call with wrong bytes is W1 / W2 / P1 and stays a violation.
+    //  * ROBUSTNESS: a panic while reading bytes that are not the record that was written (torn,
+    //    lost or flipped) - what the parser does with arbitrary text is C05 / C06's business.
+    let strict = STRICT_ADVISORY.load(std::sync::atomic::Ordering::Relaxed);
+    let mut violations: Vec<Violation> = Vec::new();
+    let mut advisory: Vec<Violation> = Vec::new();
+    for v in viols {
+        let kind: Option<&'static str> = if strict {
+            None
+        } else if reentered > 0 && !v.class.starts_with("G0-") {
+            Some("REENTRANCY")
+        } else if v.class == "P3-write-after-sink-error"
+            || v.class == "W3-write-after-sink-error"
+            || (v.class == "W3-bytes-diverge" && wout.writes_after_terminal > 0)
+            || (v.class == "W-panic" && v.detail.contains("error.is_none()"))
+        {
+            Some("PROTOCOL")
+        } else if v.class == "R-panic" && !intact {
+            Some("ROBUSTNESS")
+        } else {
+            None
+        };
+        match kind {
+            None => violations.push(v),
+            Some(k) => {
+                stats.inc(match k {
+                    "REENTRANCY" => C::advisory_reentrancy_observations,
+                    "PROTOCOL" => C::advisory_protocol_observations,
+                    _ => C::advisory_robustness_observations,
+                });
+                if stats.advisory_samples.len() < 12 && !stats.advisory_samples.iter().any(|x| x.0 == v.class && x.2 == k) {
+                    stats.advisory_samples.push((v.class.clone(), v.detail.clone(), k));
+                }
+                advisory.push(v);
             }
         }
-        (real, adv)
-    } else {
-        (viols, Vec::new())
-    };
+    }
     Outcome {
         effective,
         violations,
